@@ -154,6 +154,19 @@ func (e *Engine) collectHavoc(nodes []ast.Node, st *State) *havocSet {
 					return
 				}
 			}
+			if id, ok := ast.Unparen(lx.X).(*ast.Ident); ok {
+				// a variable declared inside the loop body names a different object in every iteration: nothing that
+				// exists at the loop head changes through it (its object is created in the body)
+				if o := e.info().ObjectOf(id); o != nil {
+					if _, bound := st.vars[o]; !bound {
+						for _, n := range nodes {
+							if n != nil && n.Pos() <= o.Pos() && o.Pos() < n.End() {
+								return
+							}
+						}
+					}
+				}
+			}
 			tmp := st.clone()
 			nob := len(e.obls)
 			func() {
@@ -285,7 +298,7 @@ func (e *Engine) collectHavoc(nodes []ast.Node, st *State) *havocSet {
 			// methods of standard-library readers / decoders: their ghost progress counters change
 			if se, ok := x.Fun.(*ast.SelectorExpr); ok {
 				if sel := e.info().Selections[se]; sel != nil && sel.Kind() == types.MethodVal {
-					if fn, ok := sel.Obj().(*types.Func); ok && fn.Pkg() != nil && (fn.Pkg().Path() == "encoding/json" || fn.Pkg().Path() == "encoding/csv") {
+					if fn, ok := sel.Obj().(*types.Func); ok && fn.Pkg() != nil && (fn.Pkg().Path() == "encoding/json" || fn.Pkg().Path() == "encoding/csv" || fn.Pkg().Path() == "database/sql") {
 						tmp := st.clone()
 						nob := len(e.obls)
 						func() {
@@ -294,6 +307,7 @@ func (e *Engine) collectHavoc(nodes []ast.Node, st *State) *havocSet {
 								h.mem["extrem:"+b.T.String()] = true
 								h.mem["csvfpr:"+b.T.String()] = true
 								h.mem["jsoncnt:"+b.T.String()] = true
+								h.mem["sqlcur:"+b.T.String()] = true
 							}
 						}()
 						e.obls = e.obls[:nob]
@@ -657,7 +671,9 @@ func (e *Engine) execFor(x *ast.ForStmt, st *State) []Out {
 		bodySt.assume(cond)
 	}
 	var dec0 *Term
-	if d := e.decreasesTerm(x, bodySt, pos); d != nil {
+	// the measure is taken at the loop head, before the condition is evaluated (a condition such as rows.Next() advances
+	// a cursor: measured after it, an iteration would be compared with itself)
+	if d := e.decreasesTerm(x, head, pos); d != nil {
 		dec0 = d
 	}
 	if cond == nil || !isFalse(cond) {
